@@ -94,6 +94,28 @@ theorem steam_fraction_monotone (h h' hl1 hs1 hl2 hs2 : ℝ) (one : Bool) (hh : 
 
 example : (419000 : ℝ) < 2675000 ∧ ((false = false) → (251000 : ℝ) < 2609000 ∧ (419000 : ℝ) ≤ 2609000) := by norm_num
 
+/-- the same in terms of what the routines return: if at the separator pressure(s) the enthalpy
+    `u + p/d` (`enth`) of the steam value exceeds that of the liquid value (and, for two stages, the second-stage
+    steam enthalpy is not below the first-stage water enthalpy), the fraction never decreases with `h` -/
+theorem steam_fraction_monotone_of_values (h h' p1 p2 dl1 ul1 ds1 us1 dl2 ul2 ds2 us2 : ℝ) (one : Bool) (hh : h ≤ h')
+    (o1 : enth dl1 ul1 p1 < enth ds1 us1 p1)
+    (o2 : one = false → enth dl2 ul2 p2 < enth ds2 us2 p2 ∧ enth dl1 ul1 p1 ≤ enth ds2 us2 p2) :
+    ssf h one (enth dl1 ul1 p1) (enth ds1 us1 p1) (enth dl2 ul2 p2) (enth ds2 us2 p2) ≤
+      ssf h' one (enth dl1 ul1 p1) (enth ds1 us1 p1) (enth dl2 ul2 p2) (enth ds2 us2 p2) :=
+  steam_fraction_monotone h h' _ _ _ _ one hh o1 o2
+
+/-- `tsat`'s guard is consistent with `sat`'s: its lower limit is the value `sat` returns, with range checking
+    on, at `sat`'s own lower temperature limit; so with checking on `tsat` is entered only for
+    `sat(0.01) ≤ p ≤ P_c1`, and `sat(0.01)` is never `None` -/
+theorem bounds_tsat_sat (p : ℝ) :
+    sat tmin true = Ret.num (sat67 tmin) ∧ (tsat_ok p true = true → sat67 tmin ≤ p ∧ p ≤ (Pc1 : ℝ)) := by
+  constructor
+  · have h1 : tmin ≤ tmin ∧ tmin ≤ tc1C := ⟨le_refl _, by have := tc1C_gt_350; unfold tmin; linarith⟩
+    obtain ⟨s, hs⟩ := (sat_unchecked tmin).2 ⟨h1.1, le_trans h1.2 tc1C_le_500⟩
+    rw [sat_guard, if_pos h1, hs]
+    unfold sat67; rw [hs]; rfl
+  · exact (Proofs.Ifc67.bounds_tsat p).1.mp
+
 /-! ### the two region classifiers -/
 
 /-- IFC-67 `region` and IAPWS-97 `region` agree: below 350 degC whenever `p` is not between (or on)
@@ -109,5 +131,15 @@ theorem regions_agree_logic (t p : ℝ) :
     (¬(tmin ≤ t ∧ t ≤ 800 ∧ 0 ≤ p ∧ p ≤ 100000000) →
       Gen.Ifc67.region t p = Ret.none ∧ Gen.Iapws.region t p = Ret.none) :=
   regions_agree t p
+
+/-- and the **only** states of the box where they differ: below 350 degC `p` between the two saturation
+    pressures, between the critical temperature and 590 degC `p` between the two B23 pressures (half-open
+    bands as the comparisons are written) -/
+theorem regions_differ_exactly (t p : ℝ) (hb : tmin ≤ t ∧ t ≤ 800 ∧ 0 ≤ p ∧ p ≤ 100000000) :
+    (t ≤ 350 → (Gen.Ifc67.region t p ≠ Gen.Iapws.region t p ↔
+      (Proofs.Iapws.satP t < p ∧ p < sat67 t) ∨ (sat67 t ≤ p ∧ p ≤ Proofs.Iapws.satP t))) ∧
+    (tc1C < t → t ≤ 590 → (Gen.Ifc67.region t p ≠ Gen.Iapws.region t p ↔
+      (Proofs.Iapws.b23P t < p ∧ p < b23p67 t) ∨ (b23p67 t ≤ p ∧ p ≤ Proofs.Iapws.b23P t))) :=
+  regions_differ_iff t p hb
 
 end Props.C15
